@@ -269,6 +269,31 @@ def check_table(ctx, pm):
                     if bad:
                         ctx.violation("suffix-table", "every documented suffix spelling is recognised; missing respin is 0",
                                       {"id": cid}, observed=got, expected=want)
+            # ids spelled with any documented suffix are valid ids for the library itself, and a legacy (< 0.3) document
+            # carrying one loads and decodes to the same triple
+            for suf, ctype in sorted(domains.COMPOSE_SUFFIX_DECODE.items()):
+                for respin in (None, 2, 12345678):
+                    cid = prefix + date + suf + ("" if respin is None else ".%d" % respin)
+                    want = [date, ctype, respin or 0]
+                    doc = {"header": {"version": "0.2"},
+                           "payload": {"compose": {"id": cid, "type": ctype}, "product": {"name": "N", "short": "X", "version": "1"},
+                                       "variants": {}}}
+                    try:
+                        ci = pm["ComposeInfo"]()
+                        ci.compose.id, ci.compose.type, ci.compose.date, ci.compose.respin = cid, ctype, date, respin or 0
+                        ci.compose.validate()
+                        ci2 = pm["ComposeInfo"]()
+                        ci2.loads(json.dumps(doc))
+                        got = [ci2.compose.date, ci2.compose.type, ci2.compose.respin]
+                    except Exception as e:
+                        got = "raised %s: %s" % (type(e).__name__, str(e)[:120])
+                    bad = got != want
+                    ctx.monitor("suffix-table-documents", fired=bad)
+                    n += 1
+                    if bad:
+                        ctx.violation("suffix-table-documents", "an id with a documented suffix spelling passes the library's id validation and a "
+                                      "legacy document carrying it loads with the date/type/respin inside the id", {"id": cid, "document": doc},
+                                      observed=got, expected=want)
             for suf in UNKNOWN_SUFFIXES:
                 for respin in (None, 2):
                     cid = prefix + date + suf + ("" if respin is None else ".%d" % respin)
